@@ -1,6 +1,7 @@
 package common
 
 import (
+	"bytes"
 	"encoding/json"
 	"fmt"
 
@@ -52,13 +53,46 @@ func buildPlainValueFromElement(elem r.Element) any {
 		}
 		return resultList
 	case *value.HashMap:
-		resultMap := map[string]any{}
-		for k, vi := range vv.GetValue() {
-			resultMap[k] = buildPlainValueFromElement(vi)
+		// keep the dictionary's own (insertion) order in the generated JSON
+		resultObj := orderedJSONObject{}
+		hmValue := vv.GetValue()
+		for _, k := range vv.GetKeyOrder() {
+			resultObj.keys = append(resultObj.keys, k)
+			resultObj.values = append(resultObj.values, buildPlainValueFromElement(hmValue[k]))
 		}
-		return resultMap
+		return resultObj
 	}
 	return nil
+}
+
+// orderedJSONObject - a JSON object whose members are written in the given order
+// (encoding/json sorts the keys of a Go map alphabetically)
+type orderedJSONObject struct {
+	keys   []string
+	values []any
+}
+
+func (o orderedJSONObject) MarshalJSON() ([]byte, error) {
+	var buf bytes.Buffer
+	buf.WriteByte('{')
+	for i, k := range o.keys {
+		if i > 0 {
+			buf.WriteByte(',')
+		}
+		kb, err := json.Marshal(k)
+		if err != nil {
+			return nil, err
+		}
+		vb, err := json.Marshal(o.values[i])
+		if err != nil {
+			return nil, err
+		}
+		buf.Write(kb)
+		buf.WriteByte(':')
+		buf.Write(vb)
+	}
+	buf.WriteByte('}')
+	return buf.Bytes(), nil
 }
 
 func buildElementFromPlainValue(item any) r.Element {
